@@ -16,7 +16,7 @@
    (from_yaml_of_entry). *)
 From Coq Require Import String List NArith ZArith Bool Arith Lia.
 From Tealer Require Import Tables LeafPrelude Syntax Parse Cfg StackAst Keys KeysGen Analysis Domains Detect SearchGen Group GroupGen GroupInitGen.
-From Tealer Require Import SearchGenLemmas GroupLemmas GroupGenLemmas GroupInitGenLemmas YamlRelLemmas.
+From Tealer Require Import SearchGenLemmas GroupLemmas GroupGenLemmas GroupInitGenLemmas YamlRelLemmas GroupCfgOk.
 Import ListNotations.
 Open Scope string_scope.
 Open Scope list_scope.
@@ -627,3 +627,48 @@ Example from_yaml_of_entry_example :
     (yaml_of_entry "a" "pay" None (Some true) (Some (mkGroupConfigFunctionCall "ls" "f")) (Some (-1)%Z) (Some [(1%Z, "b"); (2%Z, "c"); (3%Z, "b")])) =
   Ok (mkGroupConfigTransaction "a" "pay" None (Some true) (Some (mkGroupConfigFunctionCall "ls" "f")) (Some (-1)%Z) (Some [("b", 3%Z); ("c", 2%Z)])).
 Proof. vm_compute. reflexivity. Qed.
+
+(* ====================================================================== *)
+(* 7. Reader followed by the construction of the objects                    *)
+(* ====================================================================== *)
+Theorem grp_fault_range m x :
+  grp_fault m = Some x -> In x [T_grp_missing; T_txn_missing; T_txn_unknown; T_call_missing; T_rel_missing; ETypeError].
+Proof.
+  unfold grp_fault. cbn [In]. destruct (all_present _ m); [|intros H; inversion H; auto].
+  destruct (yget "transactions" m); try (intros H; inversion H; auto 10; fail).
+  destruct (first_fault elem_fault l) as [y|] eqn:Ef; cbn [or_else].
+  - intros H; inversion H; subst y. apply first_fault_some in Ef. destruct Ef as (v & _ & Hv).
+    destruct v; cbn [elem_fault] in Hv; try (inversion Hv; auto 10; fail).
+    apply txn_fault_range in Hv. cbn [In] in Hv. intuition auto 10.
+  - destruct (is_str (yget "operation" m)); [discriminate | intros H; inversion H; auto 10].
+Qed.
+
+(* one group of the configuration file, from the parsed YAML map to the Transaction objects *)
+Definition read_group (cs : list (string * tcontract)) (m : list (string * yv)) : rs (list tobj * gobj) :=
+  rbind (GroupConfigGroup_from_yaml_gen m) (init_group_gen cs).
+
+Theorem read_group_returns_iff cs m :
+  (exists r, read_group cs m = Ok r) <-> grp_fault m = None /\ group_cfg_ok cs (cg_transactions (grp_record m)) = true.
+Proof.
+  unfold read_group. rewrite grp_from_yaml_total. destruct (grp_fault m) as [x|]; cbn [rbind].
+  - split; [intros [r H]; discriminate H | intros [H _]; discriminate H].
+  - rewrite init_group_returns_iff. split; [intros H; split; [reflexivity | exact H] | intros [_ H]; exact H].
+Qed.
+
+(* the KeyError of `USER_CONFIG_TRANSACTION_TYPES[txn.txn_type]` is unreachable from a configuration file: from_yaml has
+   refused the unknown type before *)
+Theorem read_group_never_keyerror cs m : read_group cs m <> Raise EKeyError.
+Proof.
+  unfold read_group. intros H. destruct (GroupConfigGroup_from_yaml_gen m) as [grp|x] eqn:Eg; cbn [rbind] in H.
+  - apply init_raises_unknown_type in H. destruct H as (pre & e & post & E & _ & Hm).
+    rewrite (grp_returns_known_types m grp Eg e) in Hm; [discriminate Hm|]. rewrite E. apply in_or_app. right. left. reflexivity.
+  - inversion H; subst x. apply grp_from_yaml_raises_iff in Eg. apply grp_fault_range in Eg. cbn [In] in Eg.
+    destruct Eg as [X|[X|[X|[X|[X|[X|[]]]]]]]; tmpl_neq.
+Qed.
+Print Assumptions read_group_never_keyerror.
+
+Example read_group_example :
+  exists heap g, read_group ex_contracts [("operation", YStr "op"); ("transactions", YList [YMap ex_yaml_a; YMap ex_yaml_c])] = Raise E_foreign /\
+                 read_group ex_contracts [("operation", YStr "op"); ("transactions", YList [YMap ex_yaml_c])] = Ok (heap, g) /\
+                 view_group heap g = [mkTxn "c" "Appl" false None (Some 1) None []].
+Proof. eexists. eexists. split; [vm_compute; reflexivity|]. split; vm_compute; reflexivity. Qed.
